@@ -116,6 +116,78 @@ trait System : Sized {
     fn open(&self, path: &str, Tracked(w): Tracked<&mut World>) -> (r: Result<Self::File, SystemError>)
         ensures *final(w) == *old(w),
             r matches Ok(f) ==> old(w).files.contains_key(path@) && f.content() == old(w).files[path@].content && f.pos() == 0;
+    fn is_dir(&self, path: &str, Tracked(w): Tracked<&mut World>) -> (r: bool)
+        ensures *final(w) == *old(w), r == old(w).dirs.contains(path@);
+    fn is_file(&self, path: &str, Tracked(w): Tracked<&mut World>) -> (r: bool)
+        ensures *final(w) == *old(w), r == old(w).files.contains_key(path@);
+    // the entries of a directory, as full paths, in the order the System hands them out (RealSystem and FakeSystem sort them)
+    fn list_dir(&self, path: &str, Tracked(w): Tracked<&mut World>) -> (r: Result<Vec<String>, SystemError>)
+        ensures *final(w) == *old(w), r matches Ok(v) ==> strs(v@) == listing(*old(w), path@);
+}
+uninterp spec fn listing(w: World, dir: Seq<char>) -> Seq<Seq<char>>;
+// ---------- the hash of a directory (C15: "changes when any contained name or content changes") ----------
+// names joined by single newlines
+spec fn join_sep(l: Seq<Seq<char>>, sep: Seq<char>) -> Seq<char> decreases l.len() { if l.len() == 0 { Seq::empty() } else if l.len() == 1 { l[0] } else { join_sep(l.drop_last(), sep) + sep + l.last() } }
+spec fn join_nl(l: Seq<Seq<char>>) -> Seq<char> { join_sep(l, NL()) }
+// ASSUMED: `[String]::join(sep)`
+#[verifier::external_body] fn join_with(v: &Vec<String>, sep: &str) -> (r: String) ensures r@ == join_sep(strs(v@), sep@) { v.join(sep) }
+// the 32 bytes an entry contributes: the hash of a file's bytes, the ticket of a sub-directory
+uninterp spec fn dir_ticket(w: World, p: Seq<char>) -> Seq<u8>;
+spec fn entry_bytes(w: World, q: Seq<char>) -> Seq<u8> { if w.dirs.contains(q) { dir_ticket(w, q) } else { sha256(w.files[q].content) } }
+spec fn entries_bytes(w: World, l: Seq<Seq<char>>, k: int) -> Seq<u8> decreases k { if k <= 0 { Seq::empty() } else { entries_bytes(w, l, k - 1) + entry_bytes(w, l[k - 1]) } }
+// what is hashed for a directory: its listing, then 32 bytes per entry in listing order
+spec fn dir_input(w: World, p: Seq<char>) -> Seq<u8> { utf8(join_nl(listing(w, p))) + entries_bytes(w, listing(w, p), listing(w, p).len() as int) }
+// ASSUMED (well-foundedness): a directory tree is finite, so "the ticket of a directory is the hash of its input" defines dir_ticket
+#[verifier::external_body] proof fn dir_ticket_def(w: World, p: Seq<char>) ensures dir_ticket(w, p) == sha256(dir_input(w, p)) {}
+proof fn entry_bytes_len(w: World, q: Seq<char>) ensures entry_bytes(w, q).len() == 32 { dir_ticket_def(w, q); }
+proof fn entries_bytes_len(w: World, l: Seq<Seq<char>>, k: int) requires 0 <= k <= l.len() ensures entries_bytes(w, l, k).len() == 32 * k decreases k
+{ if k > 0 { entries_bytes_len(w, l, k - 1); entry_bytes_len(w, l[k - 1]); } }
+// SENSITIVITY 1 (contents): with the names as they were, if the bytes of any file change -- or the ticket of any sub-directory,
+// which by this very lemma happens when something inside it changes -- the directory's input changes (so its hash does, short of a
+// SHA-256 collision).  Any number of entries may change at once.
+proof fn dir_content_sensitive(w1: World, w2: World, p: Seq<char>, i: int)
+    requires listing(w1, p) == listing(w2, p), 0 <= i < listing(w1, p).len(), entry_bytes(w1, listing(w1, p)[i]) != entry_bytes(w2, listing(w2, p)[i]),
+    ensures dir_input(w1, p) != dir_input(w2, p)
+{
+    let l = listing(w1, p); let n = l.len() as int;
+    let a = utf8(join_nl(l));
+    entries_differ(w1, w2, l, n, i);
+    let e1 = entries_bytes(w1, l, n); let e2 = entries_bytes(w2, l, n);
+    if a + e1 == a + e2 {
+        assert((a + e1).subrange(a.len() as int, (a + e1).len() as int) =~= e1);
+        assert((a + e2).subrange(a.len() as int, (a + e2).len() as int) =~= e2);
+    }
+}
+proof fn entries_differ(w1: World, w2: World, l: Seq<Seq<char>>, k: int, i: int)
+    requires 0 <= i < k <= l.len(), entry_bytes(w1, l[i]) != entry_bytes(w2, l[i]),
+    ensures entries_bytes(w1, l, k) != entries_bytes(w2, l, k)
+    decreases k
+{
+    entries_bytes_len(w1, l, k - 1); entries_bytes_len(w2, l, k - 1); entry_bytes_len(w1, l[k - 1]); entry_bytes_len(w2, l[k - 1]);
+    let x1 = entries_bytes(w1, l, k - 1); let x2 = entries_bytes(w2, l, k - 1); let y1 = entry_bytes(w1, l[k - 1]); let y2 = entry_bytes(w2, l[k - 1]);
+    if x1 + y1 == x2 + y2 {
+        assert((x1 + y1).subrange(0, 32 * (k - 1)) =~= x1); assert((x2 + y2).subrange(0, 32 * (k - 1)) =~= x2);
+        assert((x1 + y1).subrange(32 * (k - 1), 32 * k) =~= y1); assert((x2 + y2).subrange(32 * (k - 1), 32 * k) =~= y2);
+        if i < k - 1 { entries_differ(w1, w2, l, k - 1, i); }
+    }
+}
+// SENSITIVITY 2 (names): a directory with the same number of entries and another listing text has another input, PROVIDED the two
+// listing texts have different lengths or the utf8 encoding tells them apart (utf8 is injective; ASSUMED below)
+#[verifier::external_body] proof fn utf8_injective(a: Seq<char>, b: Seq<char>) requires utf8(a) == utf8(b) ensures a == b {}
+proof fn dir_names_sensitive(w1: World, w2: World, p: Seq<char>)
+    requires listing(w1, p).len() == listing(w2, p).len(), join_nl(listing(w1, p)) != join_nl(listing(w2, p)),
+    ensures dir_input(w1, p) != dir_input(w2, p)
+{
+    let l1 = listing(w1, p); let l2 = listing(w2, p); let n = l1.len() as int;
+    let a1 = utf8(join_nl(l1)); let a2 = utf8(join_nl(l2));
+    let e1 = entries_bytes(w1, l1, n); let e2 = entries_bytes(w2, l2, n);
+    entries_bytes_len(w1, l1, n); entries_bytes_len(w2, l2, n);
+    if a1 + e1 == a2 + e2 {
+        assert((a1 + e1).len() == a1.len() + e1.len() && (a2 + e2).len() == a2.len() + e2.len());
+        assert(a1.len() == a2.len());
+        assert((a1 + e1).subrange(0, a1.len() as int) =~= a1); assert((a2 + e2).subrange(0, a2.len() as int) =~= a2);
+        utf8_injective(join_nl(l1), join_nl(l2));
+    }
 }
 // ASSUMED: `format!("{}", error)`
 #[verifier::external_body] fn io_error_string(e: &IoError) -> (r: String) { unimplemented!() }
@@ -570,6 +642,43 @@ impl TicketFactory {
                                 assert(buffer@.subrange(0, size as int) == reader.content().subrange(p0, p0 + size));
                                 assert(reader.content().subrange(0, p0) + reader.content().subrange(p0, p0 + size) =~= reader.content().subrange(0, p0 + size));
                             }
+//@ end
+
+//@ extract ticket.rs impl /^TicketFactory$/ fn from_str
+//@ props C15 C13 C05
+//@ ret res
+//@ rewrite 1 /first_input\.as_bytes\(\)/ => str_as_bytes(first_input)
+//@ spec
+        ensures res.acc() == utf8(first_input@),      //# O-A-from-str [C15]
+//@ end
+
+//@ extract ticket.rs impl /^TicketFactory$/ fn from_directory
+//@ props C15 C05
+//@ ret res
+//@ attr #[verifier::exec_allows_no_decreases_clause]
+//@ param Tracked(w): Tracked<&mut World>
+//@ addarg * /system\.(list_dir|is_dir|is_file)|TicketFactory::from_(directory|file)/ Tracked(w)
+//@ rewrite 1 /path_list\.join\(("[^"]*")\)/ => join_with(&path_list, \1)
+//@ spec
+        ensures *final(w) == *old(w),
+            // the digest input of a directory is its listing followed by 32 bytes per entry, in listing order: the SHA-256 of a
+            // file's bytes, the ticket of a sub-directory (lemmas dir_content_sensitive / dir_names_sensitive: it changes when a
+            // contained content or name changes).  Termination (a finite tree) is assumed, not proved                     //# O-A-from-directory [C15]
+            res matches Ok(f) ==> f.acc() == dir_input(*old(w), path@),
+//@ hint before 1/1 /let mut factory = /
+        let ghost l = strs(path_list@);
+        let ghost p0 = path@;      // (the loop variable below is called `path` too)
+        proof { assert(l == listing(*w, p0)); reveal_strlit("\n"); assert("\n"@ =~= NL()); }
+//@ loop 1 binder it
+//@ loop 1 invariant
+            invariant *w == *old(w), l == listing(*old(w), p0), l == strs(path_list@),
+                factory.acc() == utf8(join_nl(l)) + entries_bytes(*old(w), l, it.index@),
+//@ hint before 1/1 /if system\.is_dir\(&path\)/
+            proof {
+                dir_ticket_def(*old(w), path@);
+                assert(l[it.index@ as int] == path@);
+                assert(utf8(join_nl(l)) + entries_bytes(*old(w), l, it.index@) + entry_bytes(*old(w), path@) =~= utf8(join_nl(l)) + (entries_bytes(*old(w), l, it.index@) + entry_bytes(*old(w), path@)));
+            }
 //@ end
 
 //@ extract ticket.rs impl /^TicketFactory$/ fn result
